@@ -183,7 +183,7 @@ func init() {
 	})
 	core.Register(&core.Prop{
 		ID: "C19",
-		Rule: "directories of 2-12 entries mixing valid annotated files, unannotated files, faulty .go files (syntax error, truncated, empty, binary junk), parseable-but-awkward files (@tag on a field without tag literal, malformed @tag text, comments merely mentioning @tag, grouped/local/alias/generic types, interpreted-string and empty tag literals, @tag values containing a backquote, a carriage return inside a raw tag literal, whole files with CRLF line endings, files starting with a UTF-8 byte order mark), non-Go files containing annotated Go text, sub-directories, hidden entries (.gitkeep, .DS_Store, ._x.pb.go, .idea/) and a directory named x.go, real-world files (standard library incl. testdata that does not parse, protoc-gen-go output; pristine or annotated), with faulty files sorting first/middle/last; processed by the CLI with -f, -d, -p. " +
+		Rule: "directories of 2-12 entries mixing valid annotated files, unannotated files, faulty .go files (syntax error, truncated, empty, binary junk), parseable-but-awkward files (@tag on a field without tag literal, malformed @tag text, comments merely mentioning @tag, grouped/local/alias/generic types, interpreted-string and empty tag literals, @tag values containing a backquote, a carriage return inside a raw tag literal, whole files with CRLF line endings, files starting with a UTF-8 byte order mark, trailing block comments that span several lines), non-Go files containing annotated Go text, sub-directories, hidden entries (.gitkeep, .DS_Store, ._x.pb.go, .idea/) and a directory named x.go, real-world files (standard library incl. testdata that does not parse, protoc-gen-go output; pristine or annotated), with faulty files sorting first/middle/last; processed by the CLI with -f, -d, -p. " +
 			"oracle: exit status 0 and no panic text, unprocessable files byte-identical, every parseable .go file equals the C06 merge. distinct = distinct directory content hash; non-trivial = directory with >=1 faulty or awkward entry and >=1 processable annotated file",
 		Shards: func(t core.Tier) int { return 16 },
 		Parent: func(p *core.ParentCtx) *core.Result {
@@ -198,7 +198,7 @@ func init() {
 			if r.Counters["dirs_faulty_precedes_2_processable"] < 100 {
 				r.Inconc(fmt.Sprintf("too few directories in which a faulty file precedes >=2 processable ones: %d", r.Counters["dirs_faulty_precedes_2_processable"]))
 			}
-			for _, k := range []string{"fault|syntax", "fault|truncated", "fault|empty", "fault|binary", "awkward|no-literal", "awkward|malformed-tag", "awkward|grouped", "awkward|interpreted-literal", "awkward|empty-literal", "awkward|backquote-value", "awkward|cr-in-literal", "awkward|crlf", "awkward|bom", "dotfile", "nongo", "subdir", "dir-named-go"} {
+			for _, k := range []string{"fault|syntax", "fault|truncated", "fault|empty", "fault|binary", "awkward|no-literal", "awkward|malformed-tag", "awkward|grouped", "awkward|interpreted-literal", "awkward|empty-literal", "awkward|backquote-value", "awkward|cr-in-literal", "awkward|crlf", "awkward|bom", "awkward|multiline-block", "dotfile", "nongo", "subdir", "dir-named-go"} {
 				if r.Counters[k] < 20 {
 					r.Inconc(fmt.Sprintf("entry kind under-observed: %s=%d", k, r.Counters[k]))
 				}
@@ -237,7 +237,7 @@ func c06Batch(c *core.Ctx, rng *rand.Rand, batch int, withFree bool, oddDir bool
 		if withFree && rng.Intn(7) == 0 {
 			// idempotence only (C07): the parseable-but-awkward shapes of C19 (grouped and local type
 			// declarations, fields without a literal, malformed @tag text, backquote values ...)
-			k := []string{"no-literal", "malformed-tag", "grouped", "grouped", "interpreted-literal", "empty-literal", "backquote-value", "cr-in-literal", "crlf", "bom", "bom"}[rng.Intn(11)]
+			k := []string{"no-literal", "malformed-tag", "grouped", "grouped", "interpreted-literal", "empty-literal", "backquote-value", "cr-in-literal", "crlf", "bom", "bom", "multiline-block"}[rng.Intn(12)]
 			src, cl = c19Awkward(rng, k), "AWK"+k
 		}
 		name := fmt.Sprintf("f%02d_%s.pb.go", i, strings.ToLower(cl))
@@ -467,6 +467,18 @@ func c19Awkward(rng *rand.Rand, kind string) string {
 		// a carriage return inside a raw tag literal is legal Go (the scanner drops it from the value)
 		lit := []string{"`json:\"name\"\r`", "`json:\"name\" \r\nxml:\"n\"`", "`\rjson:\"name\"`"}[rng.Intn(3)]
 		return base + "type A struct {\n\tName string " + lit + " // @tag valid:\"required\"\n\tAge  int32 `json:\"age\"` // @tag valid:\"ge=0\"\n}\n\n" + good
+	case "multiline-block":
+		// a trailing block comment that spans several lines: the annotation is what follows "@tag " up to
+		// the end of THAT line (possibly nothing)
+		cm := []string{
+			"/* 备注 @tag valid:\"required\"\n\t   second line */",
+			"/* see @tag \n\t   valid:\"required\" */",
+			"/* @tag\n*/",
+			"/* @tag v\n*/",
+			"/* @tag valid:\"ge=1\" json:\"n\"\n\n\t*/",
+			"/*\n\t @tag valid:\"required\" */",
+		}[rng.Intn(6)]
+		return base + "type A struct {\n\tName string `json:\"name\"` " + cm + "\n\tAge  int32 `json:\"age\"` // @tag valid:\"ge=0\"\n}\n\n" + good
 	case "bom":
 		// a UTF-8 byte order mark in front of the package clause is legal Go
 		src, _ := gen.GenGoFile(rng, gen.SrcOpts{Class: []string{"G1", "G3", "G0"}[rng.Intn(3)]})
@@ -489,7 +501,7 @@ func runC19(c *core.Ctx) {
 	rng := c.Rng("dirs")
 	D := c.Pick(100, 2000)
 	modes := []string{"-d", "-p", "-f", "-d", "-p*"}
-	awk := []string{"no-literal", "malformed-tag", "grouped", "interpreted-literal", "empty-literal", "backquote-value", "cr-in-literal", "crlf", "bom"}
+	awk := []string{"no-literal", "malformed-tag", "grouped", "interpreted-literal", "empty-literal", "backquote-value", "cr-in-literal", "crlf", "bom", "multiline-block"}
 	for d := 0; d < D; d++ {
 		dir := filepath.Join(c.WorkDir, fmt.Sprintf("d%d", d))
 		if m := modes[d%len(modes)]; (m == "-d" || m == "-f") && d%4 == 1 {
